@@ -293,6 +293,28 @@ def recon_checks(ctx):
                     xr = ref_pdhg(E, y.ravel(), lam, Km, iters=6000)
                     if obj(x) - obj(xr) > 2e-3 * max(1.0, obj(xr)):
                         out.append((["C16", "C14"], "recon_objective", "%s(lamda=%s): objective %.6g, independent reference %.6g" % (name, lam, obj(x), obj(xr))))
+        # the same two regularised recons with explicit non-binary weights: documented objective 1/2 |W^(1/2) (E x - y)|^2 + lam |K x|_1
+        yyw = (np.sqrt(wts)[None] * yw).ravel()
+        for name, Km, mk in (("TotalVariationRecon", Gm, lambda lam: sp.mri.app.TotalVariationRecon(yw.copy(), mps, lam, weights=wts, show_pbar=False, max_iter=5000)),
+                             ("L1WaveletRecon", Wm, lambda lam: sp.mri.app.L1WaveletRecon(yw.copy(), mps, lam, weights=wts, wave_name="haar", show_pbar=False, max_iter=3000))):
+            for lam in (0.0, 0.1):
+                n_eval += 1
+                np.random.seed(trial)
+                with warnings.catch_warnings():
+                    warnings.simplefilter("ignore")
+                    try:
+                        x = mk(lam).run()
+                    except Exception as e:
+                        out.append((["C16"], "recon_exception", "%s(weights, lamda=%s) raised %r" % (name, lam, e)))
+                        continue
+                objw = lambda v: 0.5 * np.linalg.norm(Ew @ v.ravel() - yyw) ** 2 + lam * np.abs(Km @ v.ravel()).sum()
+                if lam == 0:
+                    if np.linalg.norm(x - xt) > 2e-3 * np.linalg.norm(xt):
+                        out.append((["C16"], "not_reproduced", "%s with weights and lamda=0 on consistent data: rel err %.3g" % (name, np.linalg.norm(x - xt) / np.linalg.norm(xt))))
+                else:
+                    xr = ref_pdhg(Ew, yyw, lam, Km, iters=6000)
+                    if objw(x) - objw(xr) > 2e-3 * max(1.0, objw(xr)):
+                        out.append((["C16", "C14"], "recon_objective", "%s(weights, lamda=%s): weighted objective %.6g, independent reference %.6g" % (name, lam, objw(x), objw(xr))))
     return out, n_eval
 
 
